@@ -11,6 +11,7 @@ import warnings
 
 import shapefile
 import shapely
+from hypothesis import strategies as st
 
 from vf import refmodel, specs
 from vf import strategies as S
@@ -146,5 +147,31 @@ def strategy(tier):
     return S.dataset_spec(with_vars=False, modes=("raw",), geom_kwargs={"max_n": 4})
 
 
-SUBS = [Sub("export", strategy, check_spec, quick=250, thorough=1000)]
+def _scale(value, factor):
+    if value is None:
+        return None
+    if isinstance(value, list):
+        return [_scale(v, factor) for v in value]
+    return value * factor
+
+
+@st.composite
+def awkward_coordinates(draw):
+    """The same datasets with every coordinate multiplied by a factor that is not a dyadic
+    rational and may be tiny: doubles that need all 17 significant digits, at magnitudes from
+    1e2 down to 1e-10, which a fixed number of decimal places cannot carry."""
+    spec = draw(S.dataset_spec(with_vars=False, modes=("raw",), geom_kwargs={"max_n": 3}))
+    factor = draw(st.sampled_from([1 / 3, 0.1, 7 / 9, 1e-3 / 3, 1e-6 / 7, 1e-9 / 3]))
+    g = spec["geom"]
+    for key in ("lat", "lon", "lat_bounds", "lon_bounds", "nodes"):
+        if g.get(key) is not None:
+            g[key] = _scale(g[key], factor)
+    spec["scaled_by"] = factor
+    return spec
+
+
+SUBS = [
+    Sub("export", strategy, check_spec, quick=250, thorough=1000),
+    Sub("export_awkward_coordinates", lambda tier: awkward_coordinates(), check_spec, quick=80, thorough=400),
+]
 MATCHERS = {}
